@@ -252,6 +252,13 @@ static parsec_rbtree_node_t *build(int bh, int parent_red)
 #define BHMAX (NFIX >= 31 ? 5 : NFIX >= 15 ? 4 : NFIX >= 7 ? 3 : NFIX >= 3 ? 2 : NFIX >= 1 ? 1 : 0)
 
 /* concrete value per path for a small symbolic scalar */
+/* the node operated on: enumerated inside one process, or fixed per process by -DZFIX=<in-order rank> (the
+ * processes for ZFIX = 0 .. NFIX-1 together cover what the enumeration covers) */
+#ifdef ZFIX
+#define ENUM_NODE(var) int var = (ZFIX); V_ASSUME(var < NFIX)
+#else
+#define ENUM_NODE(var) ENUM(var, vin.z, NFIX)
+#endif
 #define ENUM(var, expr, n) int var = BAD; for (int c_ = 0; c_ < (n); c_++) if ((expr) == c_) { var = c_; break; } V_ASSUME(var != BAD)
 
 static void header(void)
@@ -288,9 +295,9 @@ static void any_wf_tree(struct view *pre)
 #endif
     /* nodes outside the tree and the sentinel's links hold junk (the sentinel's parent is written by remove) */
     for (int i = NFIX; i < NP; i++) { KEY(i) = vin.key[i]; NODE(i)->color = (parsec_rbtree_color_e)vin.zcol; }
-#ifdef NIL_JUNK_CONCRETE   /* sub-case kept as its own job: concrete stale values (parent = last node, children = the sentinel
+#ifdef NIL_JUNK_CONCRETE   /* sub-case kept as its own job: concrete stale values (parent = last / first node, children = the sentinel
                             * itself), so that a read of a stale sentinel field keeps the execution concrete */
-    T.nil_element.parent = NODE(NFIX - 1);
+    T.nil_element.parent = ((NIL_JUNK_CONCRETE + 0) == 2) ? NODE(0) : NODE(NFIX - 1);   /* variant 2: first node */
     LEFT(T.nil) = T.nil; RIGHT(T.nil) = T.nil;
 #else
     T.nil_element.parent = (vin.nilpar < NP) ? NODE(vin.nilpar) : (vin.nilpar == NP ? T.nil : NULL);
@@ -346,7 +353,7 @@ void h_remove(void)
     struct view pre, post;
     vin_load();
     any_wf_tree(&pre);
-    ENUM(z, vin.z, NFIX);                           /* the removed node, enumerated */
+    ENUM_NODE(z);                                   /* the removed node, enumerated */
     parsec_rbtree_remove(&T, NODE(z));
     observe(&post);
     ASSERT_WF(post, "remove");
@@ -410,7 +417,7 @@ void h_minimum(void)
     struct view pre, post;
     vin_load();
     any_wf_tree(&pre);
-    ENUM(x, vin.z, NFIX);
+    ENUM_NODE(x);
     parsec_rbtree_node_t *r = parsec_rbtree_minimum(&T, NODE(x));
     int ri = idx(r);
     observe(&post);
@@ -440,7 +447,7 @@ void h_update(void)
     struct view pre, post;
     vin_load();
     any_wf_tree(&pre);
-    ENUM(z, vin.z, NFIX);
+    ENUM_NODE(z);
     int rc = parsec_rbtree_update_node(&T, NODE(z), vin.q);
     observe(&post);
     int other = any_key(&pre, vin.q, z);
